@@ -1,2 +1,99 @@
-(* placeholder *)
-From GY Require Import Model.Number.
+(* C14 — Enum values and bit positions are assigned as RFC 7950 9.6.4.2 / 9.7.4.2 say.
+   Only statements, closed by [exact], and Print Assumptions (printed by the checker).
+   Model: Model/Enum.v (EnumType.Set, SetNext, the member loop of Type.resolve);
+   reference: Spec/C14.v ([assign]); [members_z], [denotes], [lit_z], [init] are defined in
+   Proofs/EnumProofs.v ([members_z] is the loop over Set_/SetNext with integer values). *)
+From Coq Require Import List NArith ZArith Bool.
+Import ListNotations.
+From GY Require Import Base.Outcome Model.Number Model.Enum Spec.C14 Proofs.EnumProofs.
+Local Open Scope Z_scope.
+
+(* T(a), modelled loop with literals: for every member list on which the model returns (see
+   C14_total), no error is recorded  <->  every explicit literal denotes an int64 (ParseInt, Int)
+   and the reference accepts the members; the name->value map then is the reference assignment *)
+Theorem C14_assign : forall bits ms e errs, run_members bits ms = Ok (e, errs) ->
+  (errs = [] <-> exists msz, Forall2 denotes ms msz /\ assign bits msz = Some (ToInt e)).
+Proof. exact run_members_assign. Qed.
+
+(* when every literal denotes an integer the modelled loop is the loop over Set_/SetNext *)
+Theorem C14_loop_z : forall bits ms msz, Forall2 denotes ms msz ->
+  run_members bits ms = Ok (members_z (init bits) 0 msz).
+Proof. exact run_members_z. Qed.
+
+(* T(a) on the integer loop, both directions, all member lists *)
+Theorem C14_assign_ok : forall bits ms vs, assign bits ms = Some vs ->
+  snd (members_z (init bits) 0 ms) = [] /\ ToInt (fst (members_z (init bits) 0 ms)) = vs.
+Proof. exact members_z_assign_ok. Qed.
+Theorem C14_assign_err : forall bits ms, assign bits ms = None ->
+  snd (members_z (init bits) 0 ms) <> [].
+Proof. exact members_z_assign_err. Qed.
+
+(* T(b): the two views of an enumeration are mutually inverse (whether or not errors were
+   recorded on the way: a rejected member leaves the type unchanged) *)
+Theorem C14_inverse : forall ms e errs, run_members false ms = Ok (e, errs) ->
+  forall v n, lookup_z v (ToString e) = Some n <-> lookup_s n (ToInt e) = Some v.
+Proof. exact run_members_inverse. Qed.
+
+(* T(c): names pairwise distinct, values in the range of the type, enum values pairwise distinct *)
+Theorem C14_sound : forall bits ms e errs, run_members bits ms = Ok (e, errs) ->
+  NoDup (map fst (ToInt e)) /\
+  Forall (fun v => lo bits <= v <= hi bits) (map snd (ToInt e)) /\
+  (bits = false -> NoDup (map snd (ToInt e))).
+Proof. exact run_members_sound. Qed.
+
+(* the map view of name->value is the list of assignments *)
+Theorem C14_lookup : forall bits ms e errs, run_members bits ms = Ok (e, errs) ->
+  forall n v, lookup_s n (ToInt e) = Some v <-> In (n, v) (ToInt e).
+Proof. exact run_members_lookup. Qed.
+
+(* bitfields (and enums): value->name yields a name carrying that value, and is defined exactly
+   on the assigned values *)
+Theorem C14_names_of_values : forall bits ms e errs, run_members bits ms = Ok (e, errs) ->
+  (forall v n, lookup_z v (ToString e) = Some n -> lookup_s n (ToInt e) = Some v) /\
+  (forall v, In v (map snd (ToInt e)) <-> exists n, lookup_z v (ToString e) = Some n).
+Proof. exact run_members_bits_names. Qed.
+
+(* the invariant behind SetNext: [last] is the highest value assigned so far, -1 when none *)
+Theorem C14_last : forall bits ms e errs, run_members bits ms = Ok (e, errs) ->
+  e_last e = match highest (map snd (ToInt e)) with None => -1 | Some m => m end.
+Proof. exact run_members_last. Qed.
+
+(* the model of the loop returns (no panic) on every member list whose literals are inside the
+   alphabet of the strconv model *)
+Theorem C14_total : forall bits ms,
+  (forall name s, In (name, Some s) ms -> ParseInt s <> Unmodelled) ->
+  exists e errs, run_members bits ms = Ok (e, errs).
+Proof. exact run_members_total. Qed.
+
+(* the defects repaired by fix: commits, as refutations of the pinned code's behaviour
+   (Enum.Set_old / SetNext_old) *)
+Theorem C14_enum_old_refuted : exists ms vs,
+  assign false ms = Some vs /\ snd (members_z_old NewEnumType 0 ms) = [] /\
+  ToInt (fst (members_z_old NewEnumType 0 ms)) <> vs.
+Proof. exact old_enum_refuted. Qed.
+Theorem C14_bits_old_refuted : exists ms vs,
+  assign true ms = Some vs /\ snd (members_z_old NewBitfield 0 ms) <> [].
+Proof. exact old_bits_refuted. Qed.
+
+(* non-vacuity *)
+Definition s_m5 : str := [45%N; 53%N].        (* "-5" *)
+Definition s_max31 : str := [50; 49; 52; 55; 52; 56; 51; 54; 52; 55]%N.   (* "2147483647" *)
+Example C14_run_ex :
+  exists e, run_members false [(nm_a, Some s_m5); (nm_b, None)] = Ok (e, []) /\
+            ToInt e = [(nm_a, -5); (nm_b, -4)] /\ lookup_z (-4) (ToString e) = Some nm_b.
+Proof. eexists. vm_compute. repeat split. Qed.
+Example C14_run_bits_ex :
+  exists e, run_members true [(nm_a, Some s_max31); (nm_b, None)] = Ok (e, []) /\
+            ToInt e = [(nm_a, 2147483647); (nm_b, 2147483648)].
+Proof. eexists. vm_compute. repeat split. Qed.
+Example C14_denotes_ex : Forall2 denotes [(nm_a, Some s_m5); (nm_b, None)] [(nm_a, Some (-5)); (nm_b, None)].
+Proof. repeat constructor. Qed.
+Example C14_assign_ex :
+  assign false [(nm_a, Some 7); (nm_b, Some 2); (nm_a, None)] = None /\
+  assign false [(nm_a, Some 2147483647); (nm_b, None)] = None /\
+  assign true [(nm_a, Some 4294967295); (nm_b, None)] = None /\
+  assign false [(nm_a, None); (nm_b, Some 0)] = None /\
+  assign false [(nm_a, Some 7); (nm_b, Some 2); ([99%N], None)] = Some [(nm_a, 7); (nm_b, 2); ([99%N], 8)].
+Proof. vm_compute. repeat split. Qed.
+Example C14_err_ex : exists e, run_members false [(nm_a, Some s_max31); (nm_b, None)] = Ok (e, [1%nat]).
+Proof. eexists. vm_compute. reflexivity. Qed.
